@@ -56,6 +56,37 @@ def _sweep_src_dirs():
             shutil.rmtree(d, ignore_errors=True)
 
 
+SPECIAL_RO = ["readonly _", "declare -r _", "readonly PIPESTATUS", "readonly OPTIND OPTARG REPLY", "readonly PWD OLDPWD",
+              "readonly LINENO BASH_COMMAND", "readonly FUNCNAME BASH_SOURCE BASH_LINENO", "readonly IFS", "readonly RANDOM SECONDS",
+              "readonly XT", "readonly MAPFILE COPROC", "readonly BASH_ARGV0 SHLVL BASH_SUBSHELL"]
+
+
+def run_resilient(reqs, workers=8):
+    """Like lib.run_vh_parallel, but a harness process that dies or answers HANG costs exactly one request (its answer
+    becomes `HANG` / `DIED`, a violation for that case); the rest of its share goes to a fresh process."""
+    def one(part):
+        outs, pending, restarts = [], list(part), 0
+        while pending and restarts < 12:
+            try:
+                rc, out, err = lib.run_vh(BIN, pending, timeout=1200)
+            except Exception as ex:        # the whole process timed out: give up on this share
+                out, rc = [], -9
+            good = [o for o in out if o.startswith("scopes=") or o == "bad-request"]
+            if len(good) == len(pending):
+                outs += good
+                return outs
+            # the request after the last good answer is the culprit
+            outs += good + ["HANG" if "HANG" in out else "DIED"]
+            pending = pending[len(good) + 1:]
+            restarts += 1
+        return outs + ["SKIPPED"] * len(pending)
+    parts = lib.chunked(reqs, workers)
+    from concurrent.futures import ThreadPoolExecutor
+    with ThreadPoolExecutor(max_workers=workers) as ex:
+        rs = list(ex.map(one, parts))
+    return [o for r in rs for o in r]
+
+
 def body_program(rng):
     g = flowgen.Gen(random.Random(rng.getrandbits(48)), FEATS, budget=rng.choice([4, 6, 10, 14]))
     funcs, main = g.program(rng.choice([2, 3, 3]), nfuncs=rng.choice([1, 2, 3]))
@@ -100,22 +131,34 @@ def run(ctx):
         txt = flowgen.render((funcs, main), fd3=True, deco=((ctx.seed << 16) + pi if pi % 2 else None), deco_nl=False)
         lines = txt.rstrip("\n").split("\n")
         prelude = DEFS + "\n".join(l for l in lines[1:-1])          # without `exec 3>&1`
+        if pi % 5 == 3:
+            # a variable the shell maintains by itself is read-only: its internal updates fail on every command, and
+            # the failure must not skip any pop (found missing by seed C18-4)
+            prelude += "\n" + SPECIAL_RO[(pi // 5) % len(SPECIAL_RO)]
         body = lines[-1]
         if rng.random() < 0.5:
             body += "; " + rng.choice(EXTRA)
         reqs.append("%d %d %s %s" % (n1, n2, esc(prelude), esc(body)))
     for x in EXTRA:
         reqs.append("%d %d %s %s" % (n1, n2, esc(DEFS + "readonly RO=0\nf0() { return 3; }"), esc(x)))
-    okh, outs, errs = lib.run_vh_parallel(BIN, reqs, workers=8)
+    for ro in SPECIAL_RO:
+        for x in ("true; XT=1 true; f0; XT=2 f0; fs; /bin/true; nosuchcmd_zz 2>/dev/null; echo x | cat; v=$(f0)",
+                  "cd /; cd - >/dev/null; read r <<< y; getopts a o -a; mapfile -t A < /dev/null; for i in 1 2; do f0; done"):
+            reqs.append("%d %d %s %s" % (n1, n2, esc(DEFS + "f0() { return 3; }\n" + ro), esc(x)))
+    outs = run_resilient(reqs, workers=8)
     _sweep_src_dirs()
-    if not okh:
-        ctx.broken.append("harness c18 died: " + errs[:500])
     for req, o in zip(reqs, outs):
         ctx.count(req, nontrivial=True, bucket="resources")
         ctx.impl_validated += 1
         body = lib.unesc(req.split(" ")[3])
+        if o == "SKIPPED":
+            ctx.bucket("skipped_after_many_harness_restarts")
+            continue
         if not o.startswith("scopes="):
-            ctx.violation("harness gave no sample (panic or crash while repeating the sequence)", {"body": body, "harness": o})
+            ctx.violation("no sample: the shell %s while repeating the sequence"
+                          % ("did not come back within the time limit (each iteration slower than the last, or a loop)" if o == "HANG"
+                             else "panicked or crashed"),
+                          {"body": body, "prelude": lib.unesc(req.split(" ")[2]), "harness": o})
             continue
         kv = dict(p.split("=") for p in o.split(" "))
         case = {"body": body, "prelude": lib.unesc(req.split(" ")[2]), "iterations": [1, n1, n2], "sample": kv}
